@@ -1,5 +1,6 @@
 import ChiaModel.Drv.Util
 import ChiaModel.Drv.C07
+import ChiaModel.Drv.C08
 namespace ChiaModel.Drv.C09
 open ChiaModel ChiaModel.Drv ChiaModel.Cond ChiaModel.Gn
 
@@ -14,6 +15,19 @@ The model prints what the property prescribes: the helpers report exactly what f
 reports — removals in order, additions with the hints of the validated conditions — the recovered
 coin spends rebuild the same conditions, and every removed coin can be looked up. -/
 def handle : List String → String
+  | "C09" :: "sb" :: flags :: spends :: puz :: pks :: _markers =>
+    -- `SpendBundle::additions` on a bundle that `run_spendbundle` accepts: the prescription is the
+    -- created coins of the validated conditions (parent = id of the spent coin), as a multiset
+    let css := if spends = "-" then [] else (spends.splitOn ";").filterMap C08.parseSpend
+    let valid := C01.pkList pks
+    let p : Params := { flags := natArg flags, pkOk := fun pk => valid.contains pk, sigOk := fun pairs => pairs.isEmpty }
+    let runs := C07.parseRuns puz
+    let puzF := fun i => (runs[i]?).getD none
+    match runSpendbundle p css puzF 11000000000 with
+    | .error _ => "invalid-bundle"
+    | .ok (b, _) =>
+      let adds := sortS (b.spends.flatMap (fun s => s.createCoin.map (fun c => s!"{toHex s.coinId}:{toHex c.ph}:{c.amount}")))
+      s!"adds=[{",".intercalate adds}]"
   | "C09" :: flags :: len :: prog :: gen :: puz :: pks :: _markers =>
     match Sexp.ofBytes (hexArg prog) with
     | none => "bad-tree"
